@@ -1040,7 +1040,12 @@ struct TcpEngine : Engine
 				o.c = int64_t(rng.below(uint64_t(k_nr)));
 				o.d = (int64_t(rng.below(3)) << 1) | (rng.chance(0.3) ? 1 : 0);
 			}
-			else if (u < 0.86) { o.op = "pause"; o.a = c; o.b = sd; o.c = rng.logu(1000, 2000000000); }
+			else if (u < 0.86)
+			{
+				o.op = "pause"; o.a = c; o.b = sd; o.c = rng.logu(1000, 2000000000);
+				// captures must stay right over hours of virtual time, not just seconds
+				if (c19 && rng.chance(0.35)) o.c = rng.logu(600000000000LL, 11000000000000LL);
+			}
 			else if (u < 0.92) { o.op = "phase"; if (one_dir_phases) phase_dir = int(rng.below(2)); }
 			else if (!c06 && u < 0.97) { o.op = "close"; o.a = c; o.b = sd; }
 			else if (!c06) { o.op = "reconnect"; o.a = c; o.c = rng.chance(0.5) ? 0 : rng.logu(1000, 1000000000); }
